@@ -234,7 +234,7 @@ def shard_random(n, sd):
     @settings(max_examples=n, database=None, deadline=None, phases=(Phase.generate,),
               suppress_health_check=list(HealthCheck), report_multiple_bugs=False)
     @given(st.one_of(gen.body(max_len=8, profile=gen.ARITH_PROFILE), gen.body(max_len=16), gen.body(max_len=20, profile=gen.MEM_PROFILE),
-                     gen.corpus_block(), gen.kept_loads_block(), gen.two_store_block(), gen.unused_hashes_block(), gen.store_terms_block(), gen.swapped_commutative_block(), gen.operand_split_block()), argv_strategy(), st.integers(0, 2 ** 32))
+                     gen.corpus_block(), gen.kept_loads_block(), gen.two_store_block(), gen.dead_load_by_rule_block(), gen.unused_hashes_block(), gen.store_terms_block(), gen.swapped_commutative_block(), gen.operand_split_block()), argv_strategy(), st.integers(0, 2 ** 32))
     def prop(instrs, argv, s):
         fs = check_block(instrs, argv, random.Random(s), stats, "random")
         for f in pipeline.confirmed(fs, lambda: check_block(instrs, argv, random.Random(s), runner.Stats(), "random"), stats):
